@@ -2,7 +2,7 @@
 """C05/C06/C14 specific structural rules"""
 import ast
 from .core import AnalysisError
-from .astutil import src, strip_doc
+from .astutil import src, strip_doc, conjuncts
 
 RINGS = 'chython.algorithms.rings'
 MOL = 'chython.containers.molecule'
@@ -194,3 +194,137 @@ def rule_tautomer_donor_guard(ck, repo, R):
     moves = sorted(src(n) for n in ast.walk(th.node) if isinstance(n, ast.Assign) and isinstance(n.targets[0], ast.Attribute) and n.targets[0].attr == '_implicit_hydrogens')
     ck.decide(moves == ['atoms[current]._implicit_hydrogens = 1', 'atoms[start]._implicit_hydrogens = 0'], R, 'move-is-balanced', moves,
               f'hydrogen move of the tautomer fix is {moves}: one hydrogen must leave the donor and arrive at the acceptor', file=th.file, line=th.lineno)
+
+
+# ---- tentative writes: every path that does not commit rolls the write back ------------------------------------------------------------------
+def rule_tentative_rollback(ck, repo, R, funcs):
+    """
+    loops that try a raw charge change (`X._charge -= 1`), test it, and either commit (record the atoms in the witness set whose non-emptiness
+    triggers recalculation + flush) or give up: on every path that gives up (continue / next iteration / break without commit) the net change of X._charge is 0
+    """
+    ck.rule(R, 'a tentative raw charge change inside a search loop is net zero on every path that leaves the iteration without recording the atoms in the '
+               'witness set (the set whose non-emptiness triggers calc_implicit / flush_cache / calc_labels at the end): otherwise a rejected candidate leaves '
+               'a changed charge behind with no recalculation and no flush')
+    n_loops = 0
+    for fq in funcs:
+        f = repo.func(fq)
+        ck.require(f is not None, f'{fq} not found')
+        # witness names: `if W:` guarding a flush_cache call
+        witnesses = set()
+        for n in ast.walk(f.node):
+            if isinstance(n, ast.If) and isinstance(n.test, ast.Name) and any(isinstance(c, ast.Call) and isinstance(c.func, ast.Attribute) and c.func.attr == 'flush_cache'
+                                                                              for s in n.body for c in ast.walk(s)):
+                witnesses.add(n.test.id)
+        ck.require(witnesses, f'{fq}: no witness-guarded flush found')
+
+        def is_commit(s):
+            return any(isinstance(c, ast.Call) and isinstance(c.func, ast.Attribute) and c.func.attr in ('add', 'append', 'update') and
+                       isinstance(c.func.value, ast.Name) and c.func.value.id in witnesses for c in ast.walk(s))
+
+        def delta_of(s):
+            if isinstance(s, ast.AugAssign) and isinstance(s.target, ast.Attribute) and s.target.attr == '_charge' and isinstance(s.value, ast.Constant):
+                d = s.value.value if isinstance(s.op, ast.Add) else -s.value.value if isinstance(s.op, ast.Sub) else None
+                if d is None:
+                    raise AnalysisError(f'{fq}: charge update `{src(s)}` not understood')
+                return src(s.target.value), d
+            return None
+
+        def run(body, states):
+            """states: set of (frozenset((target, delta)...), committed); returns (fallthrough states, exits [(kind, node, state)])"""
+            exits = []
+            cur = set(states)
+            for s in body:
+                if not cur:
+                    break
+                if isinstance(s, ast.If):
+                    a, e1 = run(s.body, cur)
+                    b, e2 = run(s.orelse, cur)
+                    exits += e1 + e2
+                    cur = a | b
+                elif isinstance(s, ast.Try):
+                    prefixes = set(cur)
+                    st = set(cur)
+                    for t in s.body:
+                        st, e = run([t], st)
+                        exits += e
+                        prefixes |= st
+                    out = set(st)
+                    for h in s.handlers:
+                        o, e = run(h.body, prefixes)
+                        exits += e
+                        out |= o
+                    cur = out
+                elif isinstance(s, (ast.For, ast.While)):
+                    # inner loop: body may run zero or more times; commits / deltas inside are applied optimistically (may)
+                    o, e = run(s.body, cur)
+                    inner_exits = [x for x in e if x[0] in ('continue', 'break')]
+                    exits += [x for x in e if x[0] not in ('continue', 'break')]
+                    cur = cur | o | {x[2] for x in inner_exits}
+                elif isinstance(s, ast.Continue):
+                    exits += [('continue', s, st) for st in cur]
+                    cur = set()
+                elif isinstance(s, ast.Break):
+                    exits += [('break', s, st) for st in cur]
+                    cur = set()
+                elif isinstance(s, (ast.Return, ast.Raise)):
+                    exits += [('return', s, st) for st in cur]
+                    cur = set()
+                else:
+                    d = delta_of(s)
+                    new = set()
+                    for deltas, committed in cur:
+                        dd = dict(deltas)
+                        if d is not None:
+                            dd[d[0]] = dd.get(d[0], 0) + d[1]
+                        new.add((frozenset((k, v) for k, v in dd.items() if v), committed or is_commit(s)))
+                    cur = new
+            return cur, exits
+
+        for loop in ast.walk(f.node):
+            if not isinstance(loop, (ast.For, ast.While)):
+                continue
+            direct = [s for s in ast.walk(ast.Module(body=loop.body, type_ignores=[])) if delta_of(s) is not None] if True else []
+            # only the innermost loop that contains the charge updates directly in its own body tree (not through a nested loop)
+            nested = [l for l in ast.walk(ast.Module(body=loop.body, type_ignores=[])) if isinstance(l, (ast.For, ast.While))]
+            in_nested = {id(s) for l in nested for s in ast.walk(l)}
+            own = [s for s in direct if id(s) not in in_nested]
+            if not own:
+                continue
+            n_loops += 1
+            fall, exits = run(loop.body, {(frozenset(), False)})
+            bad = []
+            for kind, node, (deltas, committed) in exits + [('end-of-iteration', loop.body[-1], st) for st in fall]:
+                if deltas and not committed and kind != 'return':
+                    bad.append((kind, node, dict(deltas)))
+            key = f'{f.fq}:loop@{src(loop.target) if isinstance(loop, ast.For) else src(loop.test)}'
+            ck.decide(not bad, R, key, f'{len(exits) + len(fall)} exit states, all net zero or committed',
+                      (f'{f.qualname}: the iteration is left by `{bad[0][0]}` (line {bad[0][1].lineno}) with a net charge change {bad[0][2]} and nothing recorded in '
+                       f'{sorted(witnesses)}: the candidate was rejected but its charge stays changed, and no recalculation / flush follows') if bad else None,
+                      file=f.file, line=bad[0][1].lineno if bad else loop.lineno, func=f.qualname)
+    ck.count(f'{R}: search loops with tentative charge writes', n_loops)
+    ck.floor(R, 1)
+
+
+def rule_exocyclic_double(ck, repo, R):
+    ck.rule(R, 'thiele excludes ring atoms that carry a double bond which is not a bond of the candidate ring skeleton: the test is on the BOND (partner not among the ring '
+               'neighbours of this atom: `m not in rings[n]`), with order 2. Testing the partner ATOM against all ring atoms misses double bonds that join two '
+               'different candidate rings (fulvalene-like), which then get aromatised')
+    f = repo.func('chython.algorithms.aromatics.thiele:Thiele.thiele')
+    ck.require(f is not None, 'Thiele.thiele not found')
+    asg = [n for n in ast.walk(f.node) if isinstance(n, ast.Assign) and src(n.targets[0]) == 'double_bonded']
+    ck.require(len(asg) == 1 and isinstance(asg[0].value, ast.SetComp), 'thiele: double_bonded set comprehension not found')
+    comp = asg[0].value
+    outer = comp.generators[0]
+    ck.require(isinstance(outer.target, ast.Name) and src(outer.iter) == 'rings', 'thiele: double_bonded does not iterate rings')
+    n_var = outer.target.id
+    inner = [g for x in ast.walk(comp) if isinstance(x, ast.GeneratorExp) for g in x.generators]
+    ck.require(len(inner) == 1 and isinstance(inner[0].target, ast.Tuple) and len(inner[0].target.elts) == 2, 'thiele: inner generator over bonds[n].items() not found')
+    m_var, b_var = [e.id for e in inner[0].target.elts]
+    ck.require(src(inner[0].iter) == f'bonds[{n_var}].items()', 'thiele: inner generator does not iterate the bonds of the ring atom')
+    anyc = [x for x in ast.walk(comp) if isinstance(x, ast.GeneratorExp)][0]
+    cs = {src(c) for c in conjuncts(anyc.elt)} | {src(c) for i in inner[0].ifs for c in conjuncts(i)}
+    want = {f'{m_var} not in rings[{n_var}]', f'{b_var} == 2'}
+    ck.decide(cs == want, R, 'exocyclic-double-bond', sorted(cs),
+              f'thiele marks a ring atom as double-bonded outside the ring under `{" and ".join(sorted(cs))}`; required `{" and ".join(sorted(want))}` (bond-level test)',
+              file=f.file, line=asg[0].lineno, func=f.qualname, construct=src(asg[0])[:160])
+    ck.floor(R, 1)
